@@ -305,6 +305,61 @@ class Explorer:
             return None
         P['vfMapOrder'] = vfMapOrder
 
+        def vfNative(it_, args, fn):
+            return False
+        P['vfNative'] = vfNative
+
+        def reach(vals):
+            seen = {}
+            stack = list(vals)
+            while stack:
+                v = stack.pop()
+                if v is None or isinstance(v, (int, bytes, bool, str)) or is_sym(v):
+                    continue
+                if isinstance(v, Iface): stack.append(v.v); continue
+                if isinstance(v, Ptr): stack.append(v.base); continue
+                if isinstance(v, SliceV):
+                    if v.arr is not None: stack.append(v.arr)
+                    continue
+                if isinstance(v, Closure): stack.extend(v.binds or ()); continue
+                if isinstance(v, (tuple, list)): stack.extend(v); continue
+                if id(v) in seen: continue
+                if isinstance(v, Box): seen[id(v)] = v; stack.append(v.v)
+                elif isinstance(v, StructV): seen[id(v)] = v; stack.extend(v.f)
+                elif isinstance(v, ArrayV):
+                    seen[id(v)] = v
+                    if isinstance(v.a, list): stack.extend(v.a)
+                elif isinstance(v, MapV):
+                    seen[id(v)] = v
+                    for kk, vv in list(v.d.values()) + [tuple(x) for x in v.sym]: stack.append(kk); stack.append(vv)
+                elif hasattr(v, 'v') and hasattr(v, 'tid'):   # reflect value models
+                    stack.append(v.v)
+            return seen
+
+        def vfSharedBegin(it_, args, fn):
+            sl = args[0]
+            vals = [] if sl.arr is None else list(sl.arr.a[sl.off:sl.off + sl.len])
+            shared = reach(vals)
+            # everything reachable from package-level variables of the code under test (harness globals excluded)
+            shared.update(reach([b for g, b in it.globals.items() if '.vf' not in str(getattr(b, 'tag', ''))]))
+            def hook(it__, p, v):
+                b = p.base
+                tag = getattr(b, 'tag', None)
+                is_global = isinstance(tag, str) and tag.startswith('global:') and '.vf' not in tag
+                if id(b) in shared or is_global:
+                    r = it.check()
+                    if r == z3.sat:
+                        it.path.events.append('write to %s' % (tag or type(b).__name__))
+                        self.record_violation('c08.unsynchronised-write-to-shared-state', it.solver.model())
+            it.store_hook = hook
+            return None
+        P['vfSharedBegin'] = vfSharedBegin
+
+        def vfSharedEnd(it_, args, fn):
+            it.store_hook = None
+            return None
+        P['vfSharedEnd'] = vfSharedEnd
+
         def vfIsSym(it_, args, fn):
             return True
         P['vfSymbolic'] = vfIsSym
@@ -357,6 +412,7 @@ class Explorer:
             it.path_instr0 = st.instrs
             it.alloc_cap = None
             it.map_order_hook = None
+            it.store_hook = None
             it.solver.push()
             outcome = 'ok'
             try:
